@@ -109,7 +109,19 @@ type obsNewConn struct {
 	Panic    string   `json:"panic,omitempty"`
 }
 
-func runNewConn(record []byte, keys []ech.Key) (o obsNewConn) {
+// runNewConn runs NewConn (+ the first Read) under a watchdog: a call that does not return is reported as "hang".
+func runNewConn(record []byte, keys []ech.Key) obsNewConn {
+	ch := make(chan obsNewConn, 1)
+	go func() { ch <- runNewConnInner(record, keys) }()
+	select {
+	case o := <-ch:
+		return o
+	case <-time.After(5 * time.Second):
+		return obsNewConn{Kind: "panic", Panic: "hang: NewConn/Read did not return within 5 s"}
+	}
+}
+
+func runNewConnInner(record []byte, keys []ech.Key) (o obsNewConn) {
 	sc := newScriptConn(record)
 	defer func() {
 		if r := recover(); r != nil {
